@@ -65,7 +65,7 @@ func (m *memoryStore) GetTokenResponse(ctx context.Context, sessionID string) (*
 	m.mu.Lock()
 	defer m.mu.Unlock()
 
-	s := m.sessions[sessionID]
+	s := m.live(sessionID)
 	if s == nil {
 		return nil, nil
 	}
@@ -92,7 +92,7 @@ func (m *memoryStore) GetAuthorizationState(ctx context.Context, sessionID strin
 	m.mu.Lock()
 	defer m.mu.Unlock()
 
-	s := m.sessions[sessionID]
+	s := m.live(sessionID)
 	if s == nil {
 		return nil, nil
 	}
@@ -109,7 +109,7 @@ func (m *memoryStore) ClearAuthorizationState(ctx context.Context, sessionID str
 	m.mu.Lock()
 	defer m.mu.Unlock()
 
-	if s := m.sessions[sessionID]; s != nil {
+	if s := m.live(sessionID); s != nil {
 		s.accessed = m.clock.Now()
 		s.authorizationState = nil
 	}
@@ -163,7 +163,7 @@ func (m *memoryStore) set(ctx context.Context, sessionID string, setter func(s *
 	m.mu.Lock()
 	defer m.mu.Unlock()
 
-	s := m.sessions[sessionID]
+	s := m.live(sessionID)
 	if s != nil {
 		s.accessed = m.clock.Now()
 		setter(s)
@@ -174,6 +174,23 @@ func (m *memoryStore) set(ctx context.Context, sessionID string, setter func(s *
 	}
 
 	log.Debug("updating last access", "accessed", s.accessed)
+}
+
+// live returns the session with the given id unless it is past its absolute or idle timeout, in
+// which case it is dropped. Nothing schedules RemoveAllExpired in the running service, so the
+// timeouts are enforced on every access. The caller must hold m.mu.
+func (m *memoryStore) live(sessionID string) *session {
+	s := m.sessions[sessionID]
+	if s == nil {
+		return nil
+	}
+	now := m.clock.Now()
+	if (m.absoluteSessionTimeout > 0 && s.added.Before(now.Add(-m.absoluteSessionTimeout))) ||
+		(m.idleSessionTimeout > 0 && s.accessed.Before(now.Add(-m.idleSessionTimeout))) {
+		delete(m.sessions, sessionID)
+		return nil
+	}
+	return s
 }
 
 // session holds the data of a session stored in the in-memory cache
